@@ -183,6 +183,41 @@ def search(ck, tier, seed):
                                    "%s box %s K=%d %s: max error %.3g" % (fam, box, K, kind, float((a[1][0].double() - b[1][0]).abs().max())), case)
 
 
+def dense_inverse(ck, tier, seed):
+    """the inverse direction of the four spline functions in float32 on a dense grid of the output interval: root formulas
+    that cancel lose digits only next to isolated points inside a bin, which a handful of knots never hits"""
+    npts = 4001 if tier == "quick" else 40001
+    for fam in sh.FAMILIES:
+        for K in (3, 6):
+            for bi, box in enumerate(sh.BOXES[:3]):
+                g = tgen(seed, "c19dense", fam, K, bi)
+                p64 = sh.gen_params(fam, K, False, "normal", g)
+                p32 = {k: v.float() for k, v in p64.items()}
+                y64 = torch.linspace(box[2], box[3], npts, dtype=torch.float64)
+                y32 = y64.float().clamp(box[2], box[3])
+                a = sh.call(fam, True, y32, p32, box=box)
+                b = sh.call(fam, True, y32.double(), p64, box=box)
+                ck.case(("c19-dense-inverse", fam, K, bi), nontrivial=True)
+                case = {"search": "dense-inverse-f32", "family": fam, "K": K, "box": box, "seed": seed}
+                if a[0] != "ok" or b[0] != "ok":
+                    if a[0] != b[0]:
+                        ck.finding("precision:spline-float32-raises:%s" % fam, "%s inverse box %s: %s" % (fam, box, a[1:]), case)
+                    continue
+                x32, l32 = a[1][0].double(), a[1][1].double()
+                x64, l64 = b[1]
+                scale = max(1.0, abs(box[0]), abs(box[1]))
+                slope = torch.exp(l64.clamp(max=12))          # d x / d y of the inverse
+                tol = (2e-3 if fam == "cubic" else 4e-5) * scale * (1 + slope)
+                bad = (x32 - x64).abs() > tol
+                if not bool(torch.isfinite(x32).all()):
+                    ck.finding("precision:spline-float32-non-finite:%s" % fam, "%s inverse box %s K=%d" % (fam, box, K), case)
+                elif bool(bad.any()):
+                    i = int(torch.argmax((x32 - x64).abs() / tol))
+                    ck.finding("precision:spline-float32-inverse-disagrees:%s" % fam,
+                               "%s inverse box %s K=%d at y=%r: float32 %r, float64 %r (|d log-abs-det| %.3g)" % (
+                                   fam, box, K, float(y32[i]), float(x32[i]), float(x64[i]), float((l32[i] - l64[i]).abs())), case)
+
+
 def run(tier, seed):
     ck = Check("C19", tier, seed, areas=[], gen_groups=["Tables", "Utils", "SplineRQ"])
     ck.rule = ("every catalogue transform: the float32 model against its float64 deep copy on the same moderate parameters and "
@@ -193,6 +228,7 @@ def run(tier, seed):
     ck.build()
     ck.sample({"generated_table": "Gen/Tables.v dtype_table"})
     search(ck, tier, seed)
+    dense_inverse(ck, tier, seed)
     return ck.finish()
 
 
